@@ -40,7 +40,7 @@ func (iv *c17Inv) keys() []int {
 
 func genC17(c *Ctx) error {
 	c.ShardSize = 150
-	c.Notes["rule"] = "one token chaincode instance; 2-3 invocations, each on its own goroutine with its own simulated transaction: an immediate method, batchExecute with one or two pending transactions, swapDone whose completion listener runs with the context swapDone installed; every body re-obtains its context (GetStub) 1-3 times, reads its own previous write and writes a key, and is parked before each of these points; a scheduler releases the parked invocations in a random order (all interleavings of the switch points are reachable, nested and overlapping lifetimes). Observed per invocation: status, payload, complete write-set, event - compared with the same proposal run alone over the same committed state - and the keys that landed in its write-set. Non-trivial: the lifetimes of at least two invocations overlap."
+	c.Notes["rule"] = "one token chaincode instance; 2-3 invocations, each on its own goroutine with its own simulated transaction: an immediate method, batchExecute with one or two pending transactions, executeTasks with one or two tasks, swapDone whose completion listener runs with the context swapDone installed; every body re-obtains its context (GetStub) 1-3 times, reads its own previous write and writes a key, and is parked before each of these points; a scheduler releases the parked invocations in a random order (all interleavings of the switch points are reachable, nested and overlapping lifetimes). Observed per invocation: status, payload, complete write-set, event - compared with the same proposal run alone over the same committed state - and the keys that landed in its write-set. Non-trivial: the lifetimes of at least two invocations overlap."
 	n := c.N(150, 3000)
 	for i := 0; i < n; i++ {
 		if i == n/2 {
@@ -248,6 +248,21 @@ func c17Case(c *Ctx) error {
 			u := 1 + rng.Intn(3)
 			invs = append(invs, &c17Inv{kind: "immediate", tags: []string{tag}, uses: []int{u}, tagNum: []int{tn}, creator: w.Client.Creator,
 				args: strArgs("gp", []string{tag, strconv.Itoa(u)}), txID: w.Peer.NextTxID()})
+		case k < 6:
+			// one executeTasks request carrying one or two gated tasks
+			iv := &c17Inv{kind: "tasks", creator: w.Robot.Creator, txID: w.Peer.NextTxID()}
+			var tasks []*fpb.Task
+			for m := 1 + rng.Intn(2); m > 0; m-- {
+				tag, tn := newTag()
+				u := 1 + rng.Intn(2)
+				nonce++
+				req := w.SignedArgs("tt", "gated", acc, strconv.FormatUint(nonce, 10), tag, strconv.Itoa(u))
+				tasks = append(tasks, &fpb.Task{Id: w.Peer.NextTxID(), Method: "gated", Args: req})
+				iv.tags, iv.uses, iv.tagNum = append(iv.tags, tag), append(iv.uses, u), append(iv.tagNum, tn)
+			}
+			data, _ := proto.Marshal(&fpb.ExecuteTasksRequest{Tasks: tasks})
+			iv.args = strArgs("executeTasks", []string{string(data)})
+			invs = append(invs, iv)
 		case k < 8:
 			iv := &c17Inv{kind: "batch", creator: w.Robot.Creator, txID: w.Peer.NextTxID()}
 			b := &fpb.Batch{}
@@ -413,6 +428,12 @@ func c17Case(c *Ctx) error {
 			sk = append(sk, strconv.Itoa(k))
 		}
 		ok := res.OK()
+		if iv.kind == "tasks" && ok {
+			out := decodeBatchOut(res, "executeTasks")
+			for _, r := range out.Resp.GetTxResponses() {
+				ok = ok && r.GetError() == nil
+			}
+		}
 		if iv.kind == "batch" && ok {
 			out := decodeBatchOut(res, "batchExecute")
 			for _, r := range out.Resp.GetTxResponses() {
